@@ -68,6 +68,9 @@ type c01Cfg struct {
 	topo  int
 	byRef bool
 	k     int
+	per   int  // calls per caller (0 = 1), all of one method when plain
+	plain bool // the calls carry no metadata and no deadline
+	dead  int  // further callers whose context has already ended (the transport tests the context of a Write)
 }
 
 func (c c01Cfg) tags() []string {
@@ -75,13 +78,20 @@ func (c c01Cfg) tags() []string {
 	if c.byRef {
 		tr = "by-reference"
 	}
-	return []string{"topo:" + syTopos[c.topo], "transport:" + tr, fmt.Sprintf("callers=%d", c.k)}
+	out := []string{"topo:" + syTopos[c.topo], "transport:" + tr, fmt.Sprintf("callers=%d", c.k)}
+	if c.plain {
+		out = append(out, "calls:plain")
+	}
+	if c.dead > 0 {
+		out = append(out, "dead-callers")
+	}
+	return out
 }
 
 // one lock-step C01 run: k threads with the given unary programs; choose picks among the enabled actions
 func runC01Lock(t *testing.T, cfg c01Cfg, progs [][]syCop, choose func(step int, en []syAct) int) (steps []syStep, complete, leaked bool) {
 	leaked = bubble(t, func(t *testing.T) {
-		r := newSyRig(cfg.topo, cfg.byRef, true)
+		r := newSyRigOpt(cfg.topo, cfg.byRef, true, cfg.dead > 0)
 		for _, p := range progs {
 			r.addThread(p)
 		}
@@ -154,6 +164,8 @@ type freeCfg struct {
 	procs, callers, calls int
 	topo                  int
 	byRef, barrier        bool
+	plain                 bool // no metadata, no deadline (a watchdog cancels a call that hangs)
+	dead                  int  // further goroutines calling with a context that has already ended
 }
 
 // runC01Free: real goroutines, no gating, one connection; the calls of a caller are issued in epochs of
@@ -163,7 +175,7 @@ func runC01Free(t *testing.T, fi int, fc freeCfg) (epochs [][]string) {
 	defer runtime.GOMAXPROCS(old)
 	const epochLen = 25
 	bubble(t, func(t *testing.T) {
-		r := newSyRig(fc.topo, fc.byRef, false)
+		r := newSyRigOpt(fc.topo, fc.byRef, false, fc.dead > 0)
 		var arrived, round atomic.Int64
 		r.mu.Lock()
 		if fc.barrier {
@@ -214,9 +226,18 @@ func runC01Free(t *testing.T, fi int, fc freeCfg) (epochs [][]string) {
 						if fc.barrier && size > 4096 {
 							size = 1024
 						}
-						ctx, cancel := context.WithTimeout(r.ctx, 10*time.Minute) // virtual time: fires only when everything is blocked
-						r.invoke(ctx, int64(g*fc.calls+n), (g+n)%syNUnary, syBytes(rng, size), in, out)
-						cancel()
+						if fc.plain {
+							// no deadline: a watchdog on the virtual clock ends a call that hangs; one method per caller
+							ctx, cancel := context.WithCancel(r.ctx)
+							wd := time.AfterFunc(10*time.Minute, cancel)
+							r.invokePlain(ctx, int64(g*fc.calls+n), g%syNUnary, syBytes(rng, size), in, out)
+							wd.Stop()
+							cancel()
+						} else {
+							ctx, cancel := context.WithTimeout(r.ctx, 10*time.Minute) // virtual time: fires only when everything is blocked
+							r.invoke(ctx, int64(g*fc.calls+n), (g+n)%syNUnary, syBytes(rng, size), in, out)
+							cancel()
+						}
 						if fc.barrier {
 							if f := finished.Add(1); f%int64(fc.callers) == 0 {
 								round.Store(f / int64(fc.callers))
@@ -225,6 +246,17 @@ func runC01Free(t *testing.T, fi int, fc freeCfg) (epochs [][]string) {
 						}
 					}
 				}(g)
+			}
+			for d := 0; d < fc.dead; d++ {
+				wg.Add(1)
+				go func(d int) {
+					defer wg.Done()
+					rng := newRand(int64(990000 + 1000*fi + 31*d + e0))
+					for n := 0; n < epochLen; n++ {
+						r.invokeDead(int64(d*fc.calls+e0+n), 1+(d+n)%2, (d+n)%syNUnary, syBytes(rng, 17))
+						runtime.Gosched()
+					}
+				}(d)
 			}
 			wg.Wait()
 			synctest.Wait()
@@ -244,21 +276,25 @@ func TestC01(t *testing.T) {
 	// ---- C (run first, emitted spread among the small cases). Free-running: real goroutines, no gating.
 	var frees []freeCfg
 	for i, p := range []int{1, 4, 16} {
-		frees = append(frees, freeCfg{p, 64, 200, 0, i%2 == 1, false})
+		frees = append(frees, freeCfg{p, 64, 200, 0, i%2 == 1, false, false, 0})
 	}
-	frees = append(frees, freeCfg{16, 8, 100, 1, false, false}, freeCfg{16, 8, 100, 2, true, false})
+	frees = append(frees, freeCfg{16, 8, 100, 1, false, false, false, 0}, freeCfg{16, 8, 100, 2, true, false, false, 0})
+	// plain calls (no metadata, no deadline) over by-reference transports, one method per caller; callers with dead contexts
+	frees = append(frees, freeCfg{16, 8, 50, 1, true, false, true, 0}, freeCfg{16, 8, 50, 2, true, false, true, 0},
+		freeCfg{4, 32, 50, 0, true, false, true, 0}, freeCfg{16, 32, 50, 0, false, false, false, 6}, freeCfg{4, 16, 50, 2, true, false, true, 4})
 	rounds := 12
 	if thorough() {
 		rounds = 60
-		frees = append(frees, freeCfg{16, 64, 200, 0, false, false}, freeCfg{4, 64, 200, 0, true, false})
+		frees = append(frees, freeCfg{16, 64, 200, 0, false, false, false, 0}, freeCfg{4, 64, 200, 0, true, false, false, 0},
+			freeCfg{16, 16, 200, 1, true, false, true, 0}, freeCfg{16, 64, 200, 0, true, false, false, 16})
 	}
 	for i := 0; i < rounds; i++ {
 		// simultaneous starts: 64 goroutines leave the fail-fast check of CallUnaryMethod at the same instant, 25 times
-		frees = append(frees, freeCfg{16, 64, 25, 0, i%2 == 1, true})
+		frees = append(frees, freeCfg{16, 64, 25, 0, i%2 == 1, true, false, 0})
 	}
 	em.Marker("begin", 0)
 	for fi, fc := range frees {
-		cfg := c01Cfg{fc.topo, fc.byRef, fc.callers}
+		cfg := c01Cfg{topo: fc.topo, byRef: fc.byRef, k: fc.callers, plain: fc.plain, dead: fc.dead}
 		mode := "mode:free-running"
 		if fc.barrier {
 			mode = "mode:simultaneous-starts"
@@ -279,17 +315,28 @@ func TestC01(t *testing.T) {
 	var cfgs []c01Cfg
 	for k := 1; k <= maxK; k++ {
 		for _, byRef := range []bool{false, true} {
-			cfgs = append(cfgs, c01Cfg{0, byRef, k})
+			cfgs = append(cfgs, c01Cfg{topo: 0, byRef: byRef, k: k})
 		}
 	}
 	for _, topo := range []int{1, 2} {
 		for k := 1; k <= 2; k++ {
-			cfgs = append(cfgs, c01Cfg{topo, k == 2, k})
+			cfgs = append(cfgs, c01Cfg{topo: topo, byRef: k == 2, k: k})
 		}
 		if thorough() {
-			cfgs = append(cfgs, c01Cfg{topo, false, 3})
+			cfgs = append(cfgs, c01Cfg{topo: topo, byRef: false, k: 3})
 		}
 	}
+	// plain calls (no metadata, no deadline), several in sequence per caller on one method, by-reference and
+	// serialising, every topology
+	for _, topo := range []int{0, 1, 2} {
+		cfgs = append(cfgs, c01Cfg{topo: topo, byRef: true, k: 1, per: 3, plain: true}, c01Cfg{topo: topo, byRef: false, k: 1, per: 2, plain: true})
+		if thorough() {
+			cfgs = append(cfgs, c01Cfg{topo: topo, byRef: true, k: 2, per: 2, plain: true})
+		}
+	}
+	// callers whose context has already ended, next to calls in flight
+	cfgs = append(cfgs, c01Cfg{topo: 0, byRef: false, k: 2, dead: 1}, c01Cfg{topo: 0, byRef: true, k: 1, dead: 2},
+		c01Cfg{topo: 2, byRef: true, k: 2, dead: 1}, c01Cfg{topo: 1, byRef: false, k: 1, per: 2, plain: true, dead: 1})
 	for ci, cfg := range cfgs {
 		od := &odometer{}
 		nsched := 0
@@ -298,9 +345,22 @@ func TestC01(t *testing.T) {
 			rng := newRand(int64(1000*ci + nsched))
 			progs := make([][]syCop, cfg.k)
 			sizes := make([]int, cfg.k)
+			per := cfg.per
+			if per == 0 {
+				per = 1
+			}
 			for i := range progs {
 				sizes[i] = syPickSize(rng)
-				progs[i] = []syCop{{Op: "invoke", Pay: syBytes(rng, sizes[i]), M: i + nsched}}
+				for x := 0; x < per; x++ {
+					m := i + nsched
+					if cfg.plain {
+						m = i // one method per caller: its header is the same for every call
+					}
+					progs[i] = append(progs[i], syCop{Op: "invoke", Pay: syBytes(rng, sizes[i]), M: m, Plain: cfg.plain})
+				}
+			}
+			for d := 0; d < cfg.dead; d++ {
+				progs = append(progs, []syCop{{Op: "invoke", Pay: syBytes(rng, 17), M: d, Dead: 1 + d%2}})
 			}
 			steps, complete, _ := runC01Lock(t, cfg, progs, func(step int, en []syAct) int {
 				// callers first (their order fixes the ids), then every order of the rest
@@ -330,15 +390,34 @@ func TestC01(t *testing.T) {
 			continue
 		}
 		rng := newRand(int64(50000 + i))
-		cfg := c01Cfg{i % 3, (i/3)%2 == 1, 1 + rng.Intn(8)}
+		cfg := c01Cfg{topo: i % 3, byRef: (i/3)%2 == 1, k: 1 + rng.Intn(8)}
+		if i%4 >= 2 {
+			cfg.dead = rng.Intn(3)
+		}
 		progs := make([][]syCop, cfg.k)
 		ncalls := 0
 		for j := range progs {
 			n := 1 + rng.Intn(3)
+			plain := rng.Intn(2) == 0
+			cfg.plain = cfg.plain || plain
+			mj := rng.Intn(syNUnary)
 			for x := 0; x < n; x++ {
-				progs[j] = append(progs[j], syCop{Op: "invoke", Pay: syBytes(rng, syPickSize(rng)), M: rng.Intn(syNUnary)})
+				m := rng.Intn(syNUnary)
+				if plain {
+					m = mj
+				}
+				progs[j] = append(progs[j], syCop{Op: "invoke", Pay: syBytes(rng, syPickSize(rng)), M: m, Plain: plain})
 				ncalls++
 			}
+		}
+		for d := 0; d < cfg.dead; d++ {
+			var p []syCop
+			for x := 0; x <= rng.Intn(2); x++ {
+				p = append(p, syCop{Op: "invoke", Pay: syBytes(rng, 17), M: rng.Intn(syNUnary), Dead: 1 + rng.Intn(2)})
+			}
+			// somewhere among the callers
+			at := rng.Intn(len(progs) + 1)
+			progs = append(progs[:at], append([][]syCop{p}, progs[at:]...)...)
 		}
 		steps, complete, _ := runC01Lock(t, cfg, progs, func(step int, en []syAct) int { return rng.Intn(len(en)) })
 		rec := recC01("c01-random", cfg, map[string]any{"calls": ncalls, "schedule": sySchedString(steps)}, steps, complete, "mode:random-lockstep")
